@@ -467,3 +467,55 @@ func syncable(c *pipe.Case) bool {
 	}
 	return true
 }
+
+func init() {
+	register("replay-creation", "direction A: replay TLC-generated Creation.tla cases (synchronous creation operators)", func(args []string) int {
+		fs := flag.NewFlagSet("replay-creation", flag.ExitOnError)
+		in := fs.String("in", "", "TLC output file")
+		out := fs.String("out", "", "result JSON")
+		_ = fs.String("modes", "sync", "unused")
+		_ = fs.Parse(args)
+		var all []pipe.Mismatch
+		byClass := map[string]int{}
+		perKey := map[string]int{}
+		raw := map[int]json.RawMessage{}
+		var samples []json.RawMessage
+		chains := map[string]bool{}
+		nontrivial := 0
+		n, err := pipe.ReadCCases(*in, func(i int, c *pipe.CCase) {
+			var res []pipe.Mismatch
+			pipe.ReplayCreation(i, c, &res)
+			chains[c.Inst.Op] = true
+			if len(c.Exp) > 1 {
+				nontrivial++
+			}
+			if len(samples) < 3 && i%97 == 0 {
+				samples = append(samples, json.RawMessage(c.Raw))
+			}
+			for _, m := range res {
+				byClass[m.Class]++
+				key := m.Class + "@" + m.Chain
+				perKey[key]++
+				if perKey[key] <= 6 {
+					all = append(all, m)
+					raw[m.Case] = json.RawMessage(c.Raw)
+				}
+			}
+		})
+		if err != nil {
+			fmt.Fprintln(os.Stderr, err)
+			return 2
+		}
+		summary := map[string]any{"cases": n, "replays": n, "nontrivial": nontrivial, "chains": len(chains),
+			"skipped_after_hangs": 0, "mismatches": all, "by_class": byClass, "samples": samples, "raw": raw}
+		b, _ := json.Marshal(summary)
+		if *out == "" {
+			fmt.Println(string(b))
+		} else if err := os.WriteFile(*out, b, 0o644); err != nil {
+			fmt.Fprintln(os.Stderr, err)
+			return 2
+		}
+		fmt.Printf("{\"cases\": %d, \"mismatches\": %d}\n", n, len(all))
+		return 0
+	})
+}
